@@ -1,6 +1,5 @@
 import HL.Driver.Util
 import HL.Generated.AccessExpect
-import HL.Spec.Bg
 open Lean HL.Lockset HL.Generated.Access HL.Generated.AccessExpect
 
 namespace HL.Driver.C14
@@ -20,16 +19,15 @@ def modelVerdict : Json :=
     impl   = {race, deadlock, panic} observed;
     diffs  = responses that differ from the sequential replay, each with the facts of the guard;
     spec_ok = nothing observed and no difference;
-    known  = ["resolved-pending"] when the only failures are differences inside `HL.Bg.pendingGuard`. -/
+    known  = [] — no difference is excused: `HL.Props.C14.response_is_function_of_state` holds
+    without a guard since repo_patches/fix-resolved-pending.diff (the former finding
+    `resolved-pending`), so a response that differs from the reference is a violation. -/
 def run (j : Json) : Json :=
   let impl := jget j "impl"
   let bad := jbool impl "race" || jbool impl "deadlock" || jbool impl "panic"
   let diffs := jarr j "diffs"
-  let inGuard := diffs.all fun d =>
-    HL.Bg.pendingGuard (jstr d "k") (jbool d "ws") (jbool d "inc") (jnat d "inflight") (jbool d "diagoff")
   let specOk := !bad && diffs.isEmpty
-  let known : Array Json :=
-    if !bad && !diffs.isEmpty && inGuard then #["resolved-pending"] else #[]
+  let known : Array Json := #[]
   let why :=
     if jbool impl "race" then s!"data race reported by the race detector: {(jget j "pair").compress}"
     else if jbool impl "deadlock" then "handler or background goroutine stuck (goroutine dump in report)"
@@ -39,7 +37,7 @@ def run (j : Json) : Json :=
       s!"the include-level diagnostics last published for document {(jget d "d").compress} are not those of its own include tree (sequential replay): got {(jget d "got").compress}, want {(jget d "want").compress}"
     else if !diffs.isEmpty then
       let d := diffs[0]!
-      s!"response {jstr d "k"} at op {(jget d "i").compress} differs from the sequential replay (ws={jbool d "ws"}, include={jbool d "inc"}, inflight={jnat d "inflight"}, diagoff={jbool d "diagoff"})"
+      s!"response {jstr d "k"} at op {(jget d "i").compress} differs from the reference (sequential replay with diagnostics on) (ws={jbool d "ws"}, include={jbool d "inc"}, inflight={jnat d "inflight"}, diagoff={jbool d "diagoff"}, no tree stored when the request arrived={jbool d "window"})"
     else ""
   Json.mkObj [("model", modelVerdict), ("spec_ok", specOk), ("in_domain", true),
     ("known", Json.arr known), ("why", why)]
